@@ -14,7 +14,7 @@ import re
 from sa.model import AnalysisError, norm, effects
 from sa.patheval import Interp, Obj, Sym, Top
 from sa.report import RuleResult
-from sa.rules.lockstep import (run_coder, run_wirer, outcome_set, NODE_CLASSES)
+from sa.rules.lockstep import (run_coder, run_wirer, outcome_set, outcome_set_links, link_positions, NODE_CLASSES)
 from sa.rules.walk import element, operator, NextBitmapped
 
 OPERATOR_CODES = (201, 202, 203, 204, 205, 206, 207, 208, 221, 222, 223, 224, 225, 232, 235, 236, 237, 241, 242, 243)
@@ -89,6 +89,27 @@ def lockstep_cases(repo):
                 cases.append(('%s with %d left of a 221YYY span%s' % (sname, dnp, tag), 'span under 221%s' % tag, members,
                               {'nbits_of_associated': list(al), 'data_not_present_count': dnp},
                               {'nbits_associated_list': list(al), 'data_not_present_count': dnp}))
+    # operator scopes that nest or run across structure: both sides must keep the same stack of associated-field widths, the same
+    # skip / definition registers, over a whole member list
+    E, O = element, operator
+    multi = [
+        ('nested 204: inner scope closed first', 'nested 204', [O(204, 2), E(31021), O(204, 3), E(31021), E(12001), O(204, 0), E(12001), O(204, 0), E(12001)]),
+        ('nested 204 around a fixed replication', 'nested 204', [O(204, 2), E(31021), O(204, 3), E(31021),
+                                                                  Obj('FixedReplicationDescriptor', {'id': 101002, 'members': [E(12001)]}), O(204, 0), E(12002), O(204, 0), E(12003)]),
+        ('204 closed, then plain elements', '204 scope', [O(204, 4), E(31021), E(12001), O(204, 0), E(12002), E(1001)]),
+        ('204 with class 31 and class 33 elements inside', '204 scope', [O(204, 4), E(31021), E(31001), E(33007), E(12001), O(204, 0)]),
+        ('206 then 204', '206/204 order', [O(206, 9), E(12192), O(204, 4), E(31021), E(12001), O(204, 0), E(12001)]),
+        ('203 definition then use then cancel', '203 scope', [O(203, 12), E(12101), O(203, 255), E(12101), O(203, 0), E(12101)]),
+        ('221 count spent, then further elements', '221 scope', [O(221, 2), E(12101), E(12102), E(12103), E(1001)]),
+        ('201/202/207/208 scopes around elements', 'width scopes', [O(201, 130), E(12101), O(201, 0), O(202, 129), E(12101), O(202, 0), O(207, 2), E(12101), O(207, 0),
+                                                                    O(208, 3), E(1015, unit='CCITT IA5'), O(208, 0), E(12101)]),
+        ('205 character insertion between elements', '205', [E(12101), O(205, 4), E(12102)]),
+    ]
+    for name, key, members in multi:
+        cases.append((name, key, members, {'nbits_of_associated': []}, {'nbits_associated_list': []}))
+    # a run of class 33 values after 222000 ends at the first other element; a class 33 element met later is an ordinary element
+    cases.append(('class 33 run after 222000, other element, class 33 again', 'class 33 after the run', [E(33007), E(33007), E(12101), E(33007), E(12102)],
+                  {'nbits_of_associated': [], 'status_qa_info_follows': qa_w, 'next_bitmapped_descriptor': nb()}, {'nbits_associated_list': [], 'waiting_for_qa_info_meaning': True}))
     return cases
 
 
@@ -98,13 +119,23 @@ def rule_r1(repo, rule='C09.R1'):
     n = 0
     for name, key, members, so, wo in lockstep_cases(repo):
         cfi, c = run_coder(repo, members, so)
-        wfi, w = run_wirer(repo, members, wo)
-        cs, ws = outcome_set(c, ('emit',)), outcome_set(w, ('consume',))
+        # the wirer is given the links the coder stored (per distinct set of linked positions among the coder's paths)
+        w = []
+        for keys in sorted(set(link_positions(r) for r in c if r.ok)) or [()]:
+            wfi, wk = run_wirer(repo, members, wo, link_keys=keys)
+            w += wk
+        if name == 'operator 222255':
+            # 222255 is not an FM-94 operator (quality values are class 33 elements): only the entry counts are compared
+            cs, ws = outcome_set(c, ('emit',)), outcome_set(w, ('consume',))
+        else:
+            cs, ws = outcome_set_links(c, ('emit',), 'link'), outcome_set_links(w, ('consume',), 'linkread')
         n += 1
         rr.instance('%s: coder %s, wirer %s' % (name, sorted(cs), sorted(ws)))
         if cs != ws:
             def fmt(s):
-                return ' | '.join(x if x.startswith('raise') else ('%d entries %s' % (x.count('x'), '[' + x + ']' if '(' in x else '')).strip() for x in sorted(s)) or 'nothing'
+                return ' | '.join(x if x.startswith('raise') else ('%d entries %s%s' % (x.split(' links@')[0].count('x'), '[' + x.split(' links@')[0] + ']' if '(' in x else '',
+                                                                                          (' with links at flat positions ' + x.split(' links@')[1]) if ' links@' in x else '')).strip()
+                                  for x in sorted(s)) or 'nothing'
             rr.fail('lockstep:%s' % key, wfi.where, '%s: the coder emits %s, the wirer consumes %s; the hierarchical view and the nested renderings would be '
                     'shifted against the flat data' % (name, fmt(cs), fmt(ws)), witness={'case': name})
     rr.extra['cases'] = n
@@ -594,6 +625,49 @@ def rule_r5(repo):
     if not r.ok or got != [[5, 7]]:
         rr.fail('nested-text:data-not-present-line', rd.where, 'an element skipped by 221YYY is rendered as the value-less line %r, which the nested-text reader takes '
                 'for a value line (%s)' % (slines[2] if len(slines) > 2 else slines, got if r.ok else 'raises ' + r.exc.cls), witness={'lines': slines})
+    # a quality value that a bitmap attaches to a replication factor (common in the sample corpus: the factor is an element too)
+    fd, md, qd = _elem(31001, 'DELAYED DESCRIPTOR REPLICATION FACTOR'), _elem(7004, 'PRESSURE'), _elem(33007, 'PER CENT CONFIDENCE', 'CODE TABLE')
+    qn = Obj('QualityInfoNode', {'descriptor': qd, 'index': 2})
+    frep = Obj('DelayedReplicationNode', {'descriptor': Obj('DelayedReplicationDescriptor', {'id': 101000, 'members': [md], 'factor': fd}),
+                                          'factor': Obj('ValueDataNode', {'descriptor': fd, 'index': 0, 'attributes': [qn]}),
+                                          'members': [Obj('ValueDataNode', {'descriptor': md, 'index': 1})]})
+    for label, renderer, meth, reader, mk_args, unwrap in (
+            ('nested text', 'NestedTextRenderer', rn, rd, lambda out: {'lines': ['###### subset 1 of 1 ######'] + list(out) + ['<<<<<< section 5 >>>>>>'], 'idxline': 0},
+             lambda v: v[1][0] if isinstance(v, tuple) and v[1] else v),
+            ('nested JSON', 'NestedJsonRenderer', jn, jr, lambda out: {'template_data_value': [out]}, lambda v: v[0] if isinstance(v, list) and v else v)):
+        it = TextInterp(repo, renderer)
+        kw = {'self': Obj(renderer, {}), 'decoded_nodes': [frep, qn], 'decoded_descriptors': [fd, md, qd], 'decoded_values': [1, 850, 70]}
+        if renderer == 'NestedTextRenderer':
+            kw['indent'] = ''
+        res = it.run_function(meth, lambda: dict(kw), self_class=renderer)
+        if len(res) != 1 or not res[0].ok:
+            raise AnalysisError('%s of a replication whose factor has an attribute could not be folded' % label)
+        out = res[0].value
+        it2 = TextInterp(repo, None)
+        res2 = it2.run_function(reader, lambda: mk_args(out))
+        rr.instance('%s of a delayed replication whose factor carries a quality attribute' % label)
+        r = res2[0] if len(res2) == 1 else None
+        got = unwrap(r.value) if r is not None and r.ok else None
+        if got != [1, 850, 70]:
+            rr.fail('%s:attribute-on-factor' % label.replace(' ', '-'), reader.where, 'a quality value attached to a replication factor: the %s %r reads back as %s; the flat '
+                    'data are [1, 850, 70] (the attribute line under the factor is a reference, not a value)' % (label, out, got if r is not None and r.ok else (r.exc.cls if r is not None else 'several paths')),
+                    witness={'rendering': out if isinstance(out, list) and all(isinstance(x, str) for x in out) else repr(out)})
+    # the same 221 tree as nested JSON: the value-less placeholder must not be counted as a value by the reader
+    it = TextInterp(repo, 'NestedJsonRenderer')
+    res = it.run_function(jn, lambda: {'self': Obj('NestedJsonRenderer', {}), 'decoded_nodes': list(skipped),
+                                       'decoded_descriptors': [_elem(1001, 'WMO BLOCK NUMBER'), _elem(1002, 'WMO STATION NUMBER')],
+                                       'decoded_values': [5, 7]}, self_class='NestedJsonRenderer')
+    if len(res) != 1 or not res[0].ok or not isinstance(res[0].value, list):
+        raise AnalysisError('nested JSON of a 221 template could not be folded')
+    stree = res[0].value
+    it2 = TextInterp(repo, None)
+    res2 = it2.run_function(jr, lambda: {'template_data_value': [stree]})
+    rr.instance('nested JSON of a template with a 221YYY-skipped element')
+    r = res2[0] if len(res2) == 1 else None
+    got = r.value[0] if r is not None and r.ok and isinstance(r.value, list) and r.value else None
+    if got != [5, 7]:
+        rr.fail('nested-json:data-not-present', jr.where, 'a template with an element skipped by 221YYY is rendered as %r and read back as %s; the flat data are [5, 7] '
+                '(the value-less placeholder is not a value)' % (stree, got if r is not None and r.ok else (r.exc.cls if r is not None else 'several paths')))
     # ---- flat text
     fr = repo.own_method('FlatTextRenderer', '_render_template_data')
     frd = repo.func('utils', 'subsets_flat_text_to_flat_json')
